@@ -327,7 +327,13 @@ def history_case(idx, rng, P, rep):
         if _st['tripped']:
             rep.count('prints_interrupted')
     else:
-        show(obj)                       # printed while x and child.y are not at their defaults
+        early = rng.choice(['print', 'inspect', 'assign'])
+        if early == 'print':
+            show(obj)                   # printed while x and child.y are not at their defaults
+        elif early == 'inspect':
+            obj.param.x, obj.child.param.y          # (the objects get Parameter objects of their own)
+        else:
+            obj.x, obj.child.y = 3.0, 41.0
         Outer.x = 10.0                  # the class defaults change ...
         Inner.y = 3.0
         obj.x = 0.5                     # ... and the object is given the former defaults
